@@ -13,7 +13,7 @@ kind ∈ {absent, span (typed / text / upper-case text), metric (same), unknown 
   pushed through a `ThreadLocalCtxt` frame
 × extent ∈ {none, point, range, empty range}
 × metric value ∈ {int, float, numeric sequence, empty sequence, text, numeric-looking text, bool,
-  nested sequence, sequence with text, null, missing, integer outside i64}
+  nested sequence, sequence with text, null, missing, integer beyond i64 (u64 / u128 / i128, alone or in a sequence)}
 × metric aggregation ∈ {absent, count, sum, min, max, last, unknown}.
 
 Oracle (routing table written from the statement, not from `emit`):
@@ -23,8 +23,9 @@ Oracle (routing table written from the statement, not from `emit`):
 * everything else → the logs endpoint if configured, else nowhere and `event_discarded` + 1;
 * exactly one record per event over all requests of all endpoints (counted per record, not per
   data point);
-* the statement does not settle metric-kinded events whose value is an *empty* sequence, an integer
-  outside i64, or numeric-looking text: "metrics or the fallback, exactly one".
+* the statement does not settle metric-kinded events whose value is an *empty* sequence or
+  numeric-looking text: "metrics or the fallback, exactly one". Integers beyond the i64 range (u64 / u128 /
+  i128, alone or inside a sequence) are numbers: metrics.
 
 A second section ("split batches under failures") sends > 3.5 MiB per signal so that one batch is
 split into several requests; the collector acknowledges the first request(s) of the batch and fails a
@@ -196,9 +197,10 @@ enum ValC {
     Null,
     Missing,
     BigInt,
+    BigIntSeq,
 }
 
-const VALS: [ValC; 16] = [
+const VALS: [ValC; 17] = [
     ValC::Int,
     ValC::SmallIntTypes,
     ValC::Float,
@@ -215,6 +217,7 @@ const VALS: [ValC; 16] = [
     ValC::Null,
     ValC::Missing,
     ValC::BigInt,
+    ValC::BigIntSeq,
 ];
 
 #[derive(Clone, Copy, Debug, PartialEq, Eq)]
@@ -243,14 +246,17 @@ impl ValC {
             ValC::SeqWithText => "seq-with-text",
             ValC::Null => "null",
             ValC::Missing => "missing",
-            ValC::BigInt => "int-outside-i64",
+            ValC::BigInt => "int-beyond-i64",
+            ValC::BigIntSeq => "int-beyond-i64-seq",
         }
     }
 
     fn numeric(self) -> Numeric {
         match self {
             ValC::Int | ValC::SmallIntTypes | ValC::Float | ValC::FloatSpecial | ValC::IntSeq | ValC::FloatSeq | ValC::MixedSeq => Numeric::Yes,
-            ValC::EmptySeq | ValC::BigInt | ValC::NumericText => Numeric::Unsettled,
+            // integers that do not fit an i64 are numbers all the same (u64 / u128 / i128, alone or in a sequence)
+            ValC::BigInt | ValC::BigIntSeq => Numeric::Yes,
+            ValC::EmptySeq | ValC::NumericText => Numeric::Unsettled,
             ValC::Text | ValC::Bool | ValC::NestedSeq | ValC::SeqWithText | ValC::Null | ValC::Missing => Numeric::No,
         }
     }
@@ -280,6 +286,10 @@ struct Store {
     empty: Vec<i64>,
     nested: Vec<Vec<i64>>,
     with_text: Vec<NumOrText>,
+    /// sequences with a member beyond the i64 range
+    big_u64: Vec<u64>,
+    big_u128: Vec<u128>,
+    big_i128: Vec<i128>,
     kind_span: emit::Kind,
     kind_metric: emit::Kind,
     /// the typed kinds after `to_owned()` / `to_shared()` (an event replayed from a buffer)
@@ -307,6 +317,9 @@ fn new_store() -> Store {
         empty: vec![],
         nested: vec![vec![1, 2], vec![3]],
         with_text: vec![NumOrText::I(1), NumOrText::T("two"), NumOrText::I(3)],
+        big_u64: vec![1, u64::MAX, 3],
+        big_u128: vec![u128::MAX, 2],
+        big_i128: vec![-5, i128::MIN, i64::MIN as i128 - 1],
         kind_span: emit::Kind::Span,
         kind_metric: emit::Kind::Metric,
         owned: [emit::Value::from_any(&emit::Kind::Span).to_owned(), emit::Value::from_any(&emit::Kind::Metric).to_owned()],
@@ -428,11 +441,26 @@ fn emit_one(otlp: &emit_otlp::Otlp, ev: &Ev, st: &Store) {
         ValC::Null => props.push(("metric_value", Value::null())),
         ValC::BigInt => props.push((
             "metric_value",
-            match v / 4 % 4 {
+            match v / 4 % 8 {
                 0 => Value::from(u64::MAX),
                 1 => Value::from(i64::MAX as u64 + 1),
                 2 => Value::from(u128::MAX),
-                _ => Value::from(i128::MIN),
+                3 => Value::from(i128::MIN),
+                4 => Value::from(i64::MIN as i128 - 1),
+                5 => Value::from(1u128 << 64),
+                6 => Value::from(-(1i128 << 100)),
+                _ => Value::from(i64::MAX as u128 + 1),
+            },
+        )),
+        ValC::BigIntSeq => props.push((
+            "metric_value",
+            match (v / 4 % 3, sval) {
+                (0, true) => Value::from_sval(&st.big_u64),
+                (0, false) => Value::from_serde(&st.big_u64),
+                (1, true) => Value::from_sval(&st.big_u128),
+                (1, false) => Value::from_serde(&st.big_u128),
+                (_, true) => Value::from_sval(&st.big_i128),
+                (_, false) => Value::from_serde(&st.big_i128),
             },
         )),
     }
@@ -483,7 +511,9 @@ fn gen_event(g: &mut Rng, vid: u64, k: u64) -> Ev {
             4..=6 => *g.pick(&KINDS[0..8]),
             _ => *g.pick(&KINDS),
         };
-        (kind, *g.pick(&EXTENTS), *g.pick(&VALS))
+        // metric kinds get an integer beyond i64 (alone or in a sequence) particularly often
+        let val = if kind.is_metric() && g.chance(1, 5) { *g.pick(&[ValC::BigInt, ValC::BigIntSeq]) } else { *g.pick(&VALS) };
+        (kind, *g.pick(&EXTENTS), val)
     };
     Ev { vid, kind, extent, val, agg: *g.pick(&AGGS), variant: g.next(), with_ids: g.chance(1, 3) }
 }
@@ -611,6 +641,7 @@ fn run(r: &mut Report, sc: &Scenario, seed: u64) {
             },
             ev.extent.name(),
             match ev.val.numeric() {
+                Numeric::Yes if matches!(ev.val, ValC::BigInt | ValC::BigIntSeq) => ev.val.name(),
                 Numeric::Yes => "numeric",
                 Numeric::No => "not-numeric",
                 Numeric::Unsettled => "unsettled",
@@ -635,6 +666,9 @@ fn run(r: &mut Report, sc: &Scenario, seed: u64) {
         let got1 = got.first().copied();
         match w {
             Want::Exactly(want_sig) => {
+                if ev.kind.is_metric() && matches!(ev.val, ValC::BigInt | ValC::BigIntSeq) {
+                    r.observe(&format!("{}:metric-kind:went-to-{}", ev.val.name(), got1.map(|s| s.name()).unwrap_or("none")), 1);
+                }
                 if want_sig.is_none() {
                     definite_none += 1;
                 }
